@@ -120,42 +120,124 @@ def r5(cx):
     cx.check(not why, "C07.R5", "varlink:recv:success-iff-no-error", body.sp, "; ".join(sorted(set(why))), note_ok="reply.error.is_some() ? Err(ErrorKind::from(reply)) : Ok(parameters)")
 
 
+def _closures_of(cx, body):
+    out = []
+    for b in cx.mir.bodies(body.pkg):
+        if b.promoted is not None or not b.parent: continue
+        par = b.parent
+        if par == body.path or par in [p for p, _ in getattr(body, "inlined", [])]: out.append(b)
+    return out
+
+
+def _name_tests(body, cfg, du):
+    """comparisons of a string with a literal `org.varlink.service.<X>`: {X: [true edge (src,label,dst), ...]}; plus substring-style calls"""
+    from vlib.cfg import const_strings
+    from vlib.cond import bool_sources
+    sl = Slice(body, du, extra_pass=("=as_deref", "=as_str", "=as_ref", "=deref", "=borrow"))
+    eqs = {}
+    for t in body.calls("=eq", "=ne"):
+        names = set()
+        for a in t.args:
+            for v in ([a.cstr()] if a.is_const and a.cstr() else const_strings(body, sl, a)):
+                if isinstance(v, str) and v.startswith("org.varlink.service."): names.add(v.split(".")[-1])
+        if len(names) == 1: eqs[id(t)] = (t, names.pop())
+    tests = {}
+    for b in body.blocks:
+        if b.cleanup or b.term.kind != "switch" or b.term.discr.place is None or b.term.discr.place.p: continue
+        src = bool_sources(du, b.term.discr.place.l)
+        calls = [(c, n) for k, c, n in src if k == "call"]
+        if len(src) != 1 or len(calls) != 1 or id(calls[0][0]) not in eqs: continue
+        t, name = eqs[id(calls[0][0])]
+        te, fe = bool_edges(b.term)
+        if calls[0][1] != (t.callee.name == "ne"): te, fe = fe, te
+        tests.setdefault(name, []).append(te)
+    fuzzy = [t for t in body.calls("=starts_with", "=ends_with", "=find", "=rfind", "=matches", "=eq_ignore_ascii_case", "=to_lowercase", "=to_ascii_lowercase", "=trim")
+             if "str" in t.callee.path or "String" in t.callee.path] + [t for t in body.calls("=contains") if "str" in t.callee.path and "slice" not in t.callee.path]
+    return tests, fuzzy, eqs
+
+
 def r6(cx):
     ast = cx.ast
-    # (i) From<Reply> for ErrorKind: guards `t == "<name>"`, payload struct, field
-    fr = ast.fn(LIB, "from", self_ty="ErrorKind", trait="From<Reply>")
-    arms = [e for e in fr.events if e["k"] == "arm" and e.get("guard")]
-    table_from = {}
-    for a in arms:
-        m = re.fullmatch(r't == "org\.varlink\.service\.(\w+)"', a["guard"].strip())
-        key = "varlink:From<Reply>:guard:%s" % a["guard"][:60]
-        if not m:
-            cx.bad("C07.R6", key, "%s:%d" % (LIB, a["line"]), "error name is not matched by exact comparison with a full literal name (guard `%s`): a different error could be classified as a standard one" % a["guard"]); continue
-        name = m.group(1)
-        body = a["body"]
-        st = re.search(r"from_value\s*::\s*<\s*(\w+)\s*>", body)
-        var = re.findall(r"ErrorKind\s*::\s*(\w+)\s*\(", body)
-        fld = re.search(r"v\s*\.\s*(\w+)\s*\.", body)
-        table_from[name] = (st.group(1) if st else None, sorted(set(var)), fld.group(1) if fld else None)
+    # (i) From<Reply> for ErrorKind, on the MIR: each standard name is compared exactly, and only behind that comparison the matching
+    #     variant is built, its payload taken from the matching parameter struct's member
+    fr = cx.mir.one("varlink", "<impl std::convert::From<Reply> for error::ErrorKind>::from")
+    cx.saw(fr)
+    cfg = Cfg(fr); du = DefUse(fr)
+    tests, fuzzy, eqs = _name_tests(fr, cfg, du)
+    cx.check(not fuzzy, "C07.R6", "varlink:From<Reply>:exact-comparison", fr.sp, "error names are examined with %s: a different error could be classified as a standard one" % sorted({t.callee.name for t in fuzzy}),
+             note_ok="names are compared for equality only")
+    aggs = [s for s in fr.stmts() if s.kind == "assign" and s.rv == "agg" and isinstance(s.agg, dict) and s.agg.get("adt", "").endswith("ErrorKind")]
+    clos = _closures_of(cx, fr)
+    def evidence(blocks):
+        ev = set()
+        bodies = [(fr, blocks)]
+        for st in fr.stmts():
+            if st.bb in blocks and st.kind == "assign" and st.rv == "agg" and isinstance(st.agg, dict) and st.agg.get("closure"):
+                bodies += [(c, None) for c in clos if c.path == st.agg["closure"]]
+        for b, bl in bodies:
+            for blk in b.blocks:
+                if blk.cleanup or (bl is not None and blk.idx not in bl): continue
+                places = []
+                for st in blk.stmts:
+                    if st.kind == "assign": places += [o.place for o in st.ops if o.place is not None] + ([st.rplace] if st.rplace is not None else [])
+                if blk.term.kind == "call":
+                    places += [a.place for a in blk.term.args if a.place is not None]
+                    for ta in blk.term.callee.targs:
+                        m = re.search(r"\b(Error[A-Z]\w+)\b", str(ta))
+                        if m and blk.term.callee.name == "from_value": ev.add((m.group(1), None))
+                for pl in places:
+                    m = re.search(r"\b(Error[A-Z]\w+)\b", b.ty(pl.l))
+                    if m and pl.fields(): ev.add((m.group(1), pl.fields()[0]))
+        return ev
     for name, field in STD_ERRORS.items():
-        got = table_from.get(name)
-        good = got is not None and got[0] == "Error" + name and got[1] == [name] and got[2] == field
-        cx.check(good, "C07.R6", "varlink:From<Reply>:row:%s" % name, "%s:%d" % (LIB, fr.line),
-                 "reply error org.varlink.service.%s is mapped with %s (expected struct Error%s, variant %s, member %s)" % (name, got, name, name, field),
-                 note_ok="== literal -> Error%s.%s -> ErrorKind::%s" % (name, field, name))
-    extra = sorted(set(table_from) - set(STD_ERRORS))
-    cx.check(not extra, "C07.R6", "varlink:From<Reply>:no-extra-rows", "%s:%d" % (LIB, fr.line), "unexpected standard-error rows %s" % extra, note_ok="exactly four rows")
-    fallback = [e for e in fr.events if e["k"] == "arm" and not e.get("guard") and e["text"].strip() == "_" and "VarlinkErrorReply(e)" in e["body"].replace(" ", "")]
-    cx.check(len(fallback) == 1, "C07.R6", "varlink:From<Reply>:fallback", "%s:%d" % (LIB, fr.line), "any other error name must map to VarlinkErrorReply carrying the whole reply", note_ok="_ => VarlinkErrorReply(e)")
-    # (ii) is_error
-    ie = ast.fn(LIB, "is_error", self_ty="ErrorKind")
-    from vlib.astfacts import tt_walk, lit_str_value
-    lits = [s["text"] for s in ie.ev("str")]
-    for m in ie.macros():
-        for t in tt_walk(m["tokens"]):
-            if t["t"] == "lit" and t["s"].startswith('"'): lits.append(lit_str_value(t["s"]))
-    names = sorted(x.split(".")[-1] for x in lits if x.startswith("org.varlink.service."))
-    cx.check(names == sorted(STD_ERRORS), "C07.R6", "varlink:is_error:names", "%s:%d" % (LIB, ie.line), "is_error lists %s" % names, note_ok="the same four names")
+        tes = tests.get(name, [])
+        mine = [s for s in aggs if s.agg.get("variant") == name]
+        why = []
+        if not tes: why.append("no equality test against \"org.varlink.service.%s\"" % name)
+        if not mine: why.append("ErrorKind::%s is never built" % name)
+        for s in mine:
+            if not any(cfg.edge_dominates(te, s.bb) for te in tes): why.append("ErrorKind::%s is built at %s without the name having been compared with org.varlink.service.%s" % (name, s.sp, name))
+        if tes:
+            region = set()
+            for te in tes: region |= cfg.after(te)
+            for other, otes in tests.items():
+                if other != name:
+                    for te in otes: region -= cfg.after(te)
+            wrongv = sorted({s.agg.get("variant") for s in aggs if s.bb in region and s.agg.get("variant") in STD_ERRORS and s.agg.get("variant") != name})
+            if wrongv: why.append("behind the test for %s the variant(s) %s are built" % (name, wrongv))
+            ev = evidence(region)
+            structs = {a for a, f in ev}
+            if ("Error" + name, field) not in ev: why.append("the payload is not read from Error%s.%s (seen: %s)" % (name, field, sorted(x for x in ev if x[1])))
+            if structs - {"Error" + name}: why.append("another parameter struct is used on this arm: %s" % sorted(structs - {"Error" + name}))
+        cx.check(not why, "C07.R6", "varlink:From<Reply>:row:%s" % name, fr.sp, "; ".join(why), note_ok="== literal -> Error%s.%s -> ErrorKind::%s" % (name, field, name))
+    extra = sorted(set(tests) - set(STD_ERRORS))
+    cx.check(not extra, "C07.R6", "varlink:From<Reply>:no-extra-rows", fr.sp, "unexpected standard-error rows %s" % extra, note_ok="exactly four rows")
+    fb = [s for s in aggs if s.agg.get("variant") == "VarlinkErrorReply"]
+    sl = Slice(fr, du)
+    okfb = len(fb) >= 1 and all(any(k == "arg" and o == 1 for k, o in sl.origins(s.ops[0])) for s in fb) and \
+           not any(cfg.edge_dominates(te, s.bb) for s in fb for tes in tests.values() for te in tes)
+    cx.check(okfb, "C07.R6", "varlink:From<Reply>:fallback", fr.sp, "any other error name must map to VarlinkErrorReply carrying the whole reply", note_ok="_ => VarlinkErrorReply(e)")
+    # (ii) is_error: the same four names, compared for equality
+    ie = cx.mir.one("varlink", "<impl error::ErrorKind>::is_error")
+    cx.saw(ie)
+    lits = set(); fz = []
+    for b in [ie] + _closures_of(cx, ie):
+        for st in b.stmts():
+            if st.kind == "assign":
+                for o in st.ops:
+                    if o.is_const and o.cstr() and o.cstr().startswith("org.varlink.service."): lits.add(o.cstr())
+        for t in b.calls():
+            for a in t.args:
+                if a.is_const and a.cstr() and a.cstr().startswith("org.varlink.service."): lits.add(a.cstr())
+        from vlib.cfg import promoted_consts
+        for pb in b.unit.bodies:
+            if pb.promoted is not None and pb.path == b.path:
+                for st in pb.stmts():
+                    for o in (st.ops if st.kind == "assign" else []):
+                        if o.is_const and o.cstr() and o.cstr().startswith("org.varlink.service."): lits.add(o.cstr())
+        fz += _name_tests(b, Cfg(b), DefUse(b))[1]
+    names = sorted(x.split(".")[-1] for x in lits)
+    cx.check(names == sorted(STD_ERRORS) and not fz, "C07.R6", "varlink:is_error:names", ie.sp, "is_error lists %s%s" % (names, " and uses %s" % sorted({t.callee.name for t in fz}) if fz else ""), note_ok="the same four names")
     # (iii) emitters
     for name, field in STD_ERRORS.items():
         fn = "reply_" + re.sub(r"(?<!^)([A-Z])", r"_\1", name).lower()
